@@ -173,7 +173,7 @@ pub async fn run_c11(w: &mut World, m: &mut Mon, r: &mut R, t: &Twin, max_len: u
     m.r.note(&format!("C11 alphabet: {:?}; exhaustive up to length {}, random up to {}", C11_SYMS, exhaustive_len, max_len));
 }
 
-pub const C10_SYMS: &[&str] = &["init-record", "start", "start(second)", "withdraw", "repay", "end", "end(other account)", "deposit", "borrow", "allowed-program-noop", "foreign-program-noop", "compute-budget", "start-via-cpi", "end-via-cpi", "withdraw-via-cpi", "start-deleverage(not risk admin)", "flashloan-start", "pulse-health", "start(second unhealthy account, padded data)", "end(second unhealthy account)", "start(padded data)", "end(padded data)", "repay(second unhealthy account)", "start(second unhealthy account)"];
+pub const C10_SYMS: &[&str] = &["init-record", "start", "start(second)", "withdraw", "repay", "end", "end(other account)", "deposit", "borrow", "allowed-program-noop", "foreign-program-noop", "compute-budget", "start-via-cpi", "end-via-cpi", "withdraw-via-cpi", "start-deleverage(not risk admin)", "flashloan-start", "pulse-health", "start(second unhealthy account, padded data)", "end(second unhealthy account)", "start(padded data)", "end(padded data)", "repay(second unhealthy account)", "start(second unhealthy account)", "allowed-program-instruction(3 bytes of data)", "allowed-program-instruction(no data)"];
 
 /// C10: all shapes up to a bounded length over C10_SYMS for an unhealthy victim account.
 pub async fn run_c10(w: &mut World, m: &mut Mon, r: &mut R, t: &Twin, max_len: usize, exhaustive_len: usize, samples: usize, with_record: bool) {
@@ -237,13 +237,32 @@ pub async fn run_c10(w: &mut World, m: &mut Mon, r: &mut R, t: &Twin, max_len: u
             20 => pad(ix::start_liquidation(v, rk.pubkey(), risk)),
             21 => pad(ix::end_liquidation(v, rk.pubkey(), fw, risk)),
             22 => ix::repay(g1, v2, rk.pubkey(), w.banks[t.b1].key, tas[w.banks[t.b1].mint], w.token_program_of_bank(t.b1), 100_000, None, w.mint_prefix(t.b1)),
-            _ => ix::start_liquidation(v2, rk.pubkey(), risk2),
+            23 => ix::start_liquidation(v2, rk.pubkey(), risk2),
+            // instructions of a program the bracket tolerates that are too short to carry a discriminator
+            // (what the associated-token-account program's instructions look like)
+            24 => Instruction { program_id: TITAN, accounts: vec![], data: vec![1, (pos % 250) as u8, (len % 250) as u8] },
+            _ => Instruction { program_id: TITAN, accounts: vec![solana_sdk::instruction::AccountMeta::new_readonly(fw, false)], data: vec![] },
         }
     };
     let n = C10_SYMS.len();
     let signers: Vec<&Keypair> = vec![&rk];
     let mut shapes_run = 0u64;
     let mut accepted = 0u64;
+    // directed: a short instruction of a tolerated program before, inside and after the bracket
+    for short in [24usize, 25] {
+        for shape in [vec![short, 1, 5], vec![short, 1, 3, 4, 5], vec![11, short, 1, 3, 4, 5], vec![0, short, 1, 5], vec![1, short, 5], vec![1, 3, short, 4, 5], vec![1, 5, short]] {
+            let len = shape.len();
+            let ixs: Vec<Instruction> = shape.iter().enumerate().map(|(p, s)| build(w, *s, p, len)).collect();
+            let o = w.probe(m, &ixs, &signers).await;
+            shapes_run += 1;
+            m.r.eval();
+            m.r.count("C10.directed_short_instruction_shapes");
+            m.r.distinct(&("c10-shape", shape.clone(), o.ok(), with_record));
+            if o.ok() {
+                accepted += 1;
+            }
+        }
+    }
     for len in 1..=exhaustive_len {
         let mut shape = vec![0usize; len];
         loop {
